@@ -273,15 +273,16 @@ def apply_activation(v, f, mem, accel):
         idx = (v + 128) if a["min"] < 0 else v
         return table[np.clip(idx, 0, 255)]
     if a["lut_index"] is not None:
-        if f["ofm"]["bits"] != 8 or f["ifm"]["bits"] != 8:
+        if f["ofm"]["bits"] != 8 or f["ifm"]["bits"] not in (8, 32):
             raise Unmodelled("16/32-bit lookup table")
-        if bool(f["ifm"]["signed"]) != bool(f["ofm"]["signed"]):
+        if f["ifm"]["bits"] == 8 and bool(f["ifm"]["signed"]) != bool(f["ofm"]["signed"]):
             # a table fused behind a requantisation that changes signedness: whether the index is biased by 128 follows the IFM or the OFM type is not pinned down (H6)
             raise Unmodelled("table lookup with IFM and OFM of different signedness")
         base = hw.lut_start_bank(accel, True) * 1024 + a["lut_index"] * 256
         sh = np.frombuffer(mem[csdec.SHRAM_REGION], np.uint8)
         table = sh[base: base + 256].astype(I64)
-        idx = (v + 128) if f["ifm"]["signed"] else v
+        # (a 32-bit IFM - the final SHR of a softmax with the next activation fused - cannot give the index its signedness: the table works on the 8-bit result)
+        idx = (v + 128) if (f["ifm"]["signed"] if f["ifm"]["bits"] == 8 else f["ofm"]["signed"]) else v
         out = table[np.clip(idx, 0, 255)]
         if f["ofm"]["signed"]:
             out = np.where(out >= 128, out - 256, out)
@@ -317,7 +318,7 @@ def run_kernel_op(f, accel, mem):
         wide_ok = f.get("ofm_scale", (1, 0))[0] == 1 and f["ifm"]["scale_mode"] == 0 and f["opa_scale"][0] == 1 and f["opb_scale"][0] == 1
     if kind == "elementwise" and f["mode"] in ("ADD", "SUB") and lut32:
         wide_ok = f.get("ofm_scale", (1, 0)) == (1, 0) and f["ifm"]["scale_mode"] == 0 and f["opa_scale"] == (1, 0) and f["opb_scale"] == (1, 0)  # 8-bit difference indexing a 32-bit table
-    if kind == "elementwise" and f["mode"] in ("SHR", "SHL", "CLZ") and f["ifm"]["bits"] == 32 and f["activation"]["lut_index"] is None:
+    if kind == "elementwise" and f["mode"] in ("SHR", "SHL", "CLZ") and f["ifm"]["bits"] == 32 and (f["activation"]["lut_index"] is None or (f["mode"] == "SHR" and o["bits"] == 8)):
         wide_ok = f["ifm"]["zero_point"] == 0 and (o["bits"] == 32 or (f["mode"] == "SHR" and o["bits"] == 8))  # (a 32-bit OFM ignores its zero point register, see MODEL_32BIT)
     if kind == "pool" and f["mode"] == "REDUCE_SUM" and f["ifm"]["bits"] == 32 and o["bits"] == 32:
         wide_ok = o["global_scale"] and f["ofm_scale"] == (1, 0) and f["ifm"]["zero_point"] == 0
